@@ -57,7 +57,7 @@ ENUM_OPTS = [
     [0.5, 1.0, 0.0, 0.8],
     [0.0, 0.5, 1.0 / 3.0, 2.0 / 3.0],
 ]
-DISTS = ["uniform", "clustered", "geometric", "dups", "arange", "grid4", "constant", "decades"]
+DISTS = ["uniform", "clustered", "geometric", "dups", "arange", "grid4", "constant", "decades", "tight", "tiny"]
 
 
 def budget(tier):
@@ -138,6 +138,10 @@ def make_data(step):
     elif dist == "clustered":      # most values within 1e-3 of the extreme, a few far away
         x = 1.0 + rng.random(n) * 1e-3
         x[rng.random(n) < 0.2] = 0.3
+    elif dist == "tight":          # distinct values whose spread is 1e-7 of their magnitude (250.00000 .. 250.00002)
+        x = 250.0 * (1.0 + rng.permutation(n).astype(float) * 1e-7 / max(1, n - 1))
+    elif dist == "tiny":           # distinct values of magnitude 1e-9
+        x = 1e-9 * (1.0 + rng.permutation(n).astype(float))
     elif dist == "geometric":
         x = 0.02 * 1.35 ** rng.permutation(n).astype(float)
     elif dist == "decades":        # log-uniform over ten decades around 1: every x**p stays representable (the parameter
